@@ -377,11 +377,21 @@ func c14CLI(ctx *core.Ctx, res *core.Result, intn func(int) int, pt string, file
 	// a second patch whose rewrite is unparseable on one extra file (reformat error for it)
 	os.WriteFile(filepath.Join(base, "bad.patch"), []byte("@@\n@@\n-badType\n+1 + 2\n"), 0o644)
 	files = append(append([]string{}, files...), "package p\n\nvar vbad badType\n\nfunc h() { bump(2) }\n")
+	// a third patch whose '+' side can be built for some captures only: the file on which it fails sorts first,
+	// the others have sites for which it works (their results must not depend on the failure before them)
+	os.WriteFile(filepath.Join(base, "some.patch"), []byte("@@\nvar f expression\n@@\n-tgtInvoke(f)\n+hooks.f()\n"), 0o644)
+	for i := range files {
+		if strings.HasPrefix(files[i], "package p\n") && !strings.Contains(files[i], "broken(") && i%2 == 0 {
+			files[i] += fmt.Sprintf("\nfunc inv%d() { tgtInvoke(start%d) }\n", i, i)
+		}
+	}
+	files = append([]string{"package p\n\nfunc first() { tgtInvoke(lifecycle.Start) }\n"}, files...)
 	names := make([]string, len(files))
 	for i := range files {
 		names[i] = fmt.Sprintf("f%d.go", i)
 	}
 	names[len(files)-1] = "f3_rejected_rewrite.go" // sorts into the middle of the run
+	names[0] = "a0_replacement_cannot_be_built.go" // sorts first
 	raceLog := filepath.Join(base, "clirace")
 	run := func(sub string, args []string, which []int) (map[int]string, *core.CLIResult) {
 		d := filepath.Join(base, sub)
@@ -393,7 +403,7 @@ func c14CLI(ctx *core.Ctx, res *core.Result, intn func(int) int, pt string, file
 		for i, a := range args {
 			args[i] = strings.ReplaceAll(a, "@ABS@", d) // absolute spelling of a path in this run's directory
 		}
-		cr := ctx.RunCLI(core.CLIOpts{Dir: d, Bin: bin, Args: append([]string{"-p", "../p.patch", "-p", "../bad.patch", "--skip-generated"}, args...),
+		cr := ctx.RunCLI(core.CLIOpts{Dir: d, Bin: bin, Args: append([]string{"-p", "../p.patch", "-p", "../bad.patch", "-p", "../some.patch", "--skip-generated"}, args...),
 			Env: []string{"GORACE=halt_on_error=0 log_path=" + raceLog}})
 		res.Ob("cli-runs", 1)
 		out := map[int]string{}
